@@ -306,3 +306,13 @@ package trace
 //@   loop#1 invariant s.droppedAttributes >= old(s.droppedAttributes)
 //@   loop#1 invariant fresh(s.attributes) || (samearray(s.attributes, old(s.attributes)) && cap(s.attributes) == cap(old(s.attributes)))
 //@   loop#1 invariant framed("frame.S_")
+
+// ---- truncate: at most `limit` characters are kept (runes_upto(s, i) = number of runes - valid or not - that start before
+// byte offset i; an uninterpreted function constrained by its step lemma at every loop position)
+//@ func truncate(limit int, s string) (r string)
+//@   prop C04
+//@   ensures limit < 0 || len(s) <= limit ==> r == s
+//@   loop#1 invariant 0 <= count && count <= limit && count == runes_upto(s, $off)
+//@   loop#2 invariant 0 <= i && i <= len(s) && count <= limit
+//@   assert@return#2 : runes_upto(s, i) == limit
+//@   assert@return#3 : count == runes_upto(s, len(s)) && count <= limit
